@@ -1,6 +1,6 @@
 (* C06 - publish only after durable; remove only after the replacement is durable.  Statements only. *)
 From Coq Require Import List ZArith NArith.
-From DOS Require Import Generated Base Store StoreProofs StoreLemmas Programs ProgramsProofs PackProofs MaintProofs.
+From DOS Require Import Generated Base Store StoreProofs StoreLemmas Programs ProgramsProofs PackProofs MaintProofs RepackProofs.
 Import ListNotations.
 
 Section C06.
@@ -48,6 +48,19 @@ Proof.
   intros w l vacuum order m A P B.
   destruct (clean_crash_safe H inflate H_inj w l true vacuum order m A B) as (_ & _ & Z). exact (Z eq_refl P).
 Qed.
+
+(* (2d) repack_pack: the old pack is removed only after the rows that replace it were committed on top of fsynced bytes of -1 *)
+Theorem C06_repack_power_safe : forall w l id objs m,
+  Inv H inflate w -> Inv H inflate (power_loss w) -> pending l = [] -> id <> REPACK -> get_pack w REPACK = None ->
+  Forall (robj_ok inflate w id) objs -> NoDup (map okey objs) ->
+  (forall r, In r (db w) -> rpack r = id -> In (rkey r) (map okey objs)) ->
+  rows_of_pack (db w) id <> [] ->
+  let w' := power_loss (crash (run_events (w, l) (firstn m (p_repack_one w id objs)))) in
+  Inv H inflate w' /\ (forall k c, stored inflate (power_loss w) k = Some c -> stored inflate w' k = Some c).
+Proof.
+  intros w l id objs m A P B C D E F G I.
+  destruct (repack_crash_safe H inflate H_inj w l id objs true m A B C D E F G I) as (_ & _ & Z). exact (Z eq_refl P).
+Qed.
 End C06.
 
 (* (3) the defaults the property speaks of, from the AST of the current source: packing syncs by default *)
@@ -58,4 +71,5 @@ Print Assumptions C06_monitor_sound.
 Print Assumptions C06_add_loose_power_safe.
 Print Assumptions C06_pack_power_safe.
 Print Assumptions C06_clean_power_safe.
+Print Assumptions C06_repack_power_safe.
 Print Assumptions C06_default_fsync_settings.
